@@ -555,7 +555,7 @@ func (r *c07Run) exec(i int, s Step) {
 			}()
 			if err != nil {
 				if k == 0 {
-					r.res.violate("C07", "write-failed-on-indexed-node", "colupdate/"+f.kind, i, "Collection.Update of %s with {%s: %s}: %v", id, f.name, jv, err)
+					r.res.violate("C07", "write-failed-on-indexed-node", "colupdate/"+f.kind+"/"+writeErrClass([]string{err.Error()}), i, "Collection.Update of %s with {%s: %s}: %v", id, f.name, jv, err)
 				} else {
 					r.res.HarnessErr = fmt.Sprintf("twin colupdate failed: %v", err)
 				}
